@@ -28,6 +28,10 @@ class StatefulMixin:
             return ['seen', seen, len(values)]
         if ending == 'raise':
             raise CustomError('state-raise', len(values))
+        if ending == 'return-unpicklable':
+            # the work succeeded but its result cannot be sent: the child still ends by itself and reports (a failure)
+            import threading
+            return threading.Lock()
         if ending == 'loop':
             mark(markdir, 'entered')
             x = 0
